@@ -19,12 +19,11 @@ Proof. unfold within, splice. intros Hf Hs. apply Forall_app. split; [|apply For
   - apply Forall_forall. intros x Hx. rewrite Forall_forall in Hf. apply Hf. apply (In_firstn x foo border Hx).
   - apply Forall_forall. intros x Hx. rewrite Forall_forall in Hf. apply Hf. apply (In_skipn x foo _ Hx). Qed.
 
-(* ---- NPoint: every layer temperature lies in the range of the node temperatures, smoothing included *)
-Theorem npoint_bounded (nl : nat) (lp lpn tn : list R) (wsize0 : nat) (limit m M : R) (prof : list R) :
+(* ---- interpolate + smooth + splice stays in the range of the node values *)
+Theorem smooth_profile_bounded (lp lpn tn : list R) (wsize0 : nat) (m M : R) :
   length tn = length lpn -> tn <> [] -> within m M tn ->
-  @npoint R RNum nl lp lpn tn wsize0 limit = Some prof -> within m M prof.
-Proof. intros Hl Hne Hw Hp. unfold npoint in Hp.
-  destruct (negb _); [discriminate|]. destruct (negb _); [discriminate|]. injection Hp as <-.
+  within m M (@smooth_profile R RNum lp lpn tn wsize0).
+Proof. intros Hl Hne Hw. unfold smooth_profile.
   set (TP := map (@np_interp R RNum (rev lpn) (rev tn)) (rev lp)).
   assert (HTP : within m M TP).
   { unfold TP, within. apply Forall_forall. intros x Hx. apply in_map_iff in Hx. destruct Hx as [u [<- _]].
@@ -48,6 +47,14 @@ Proof. intros Hl Hne Hw Hp. unfold npoint in Hp.
   destruct (_ =? _)%nat.
   - apply within_rev. exact Hsm.
   - apply within_splice; apply within_rev; assumption. Qed.
+
+(* ---- NPoint: every layer temperature lies in the range of the node temperatures, smoothing included *)
+Theorem npoint_bounded (nl : nat) (lp lpn tn : list R) (wsize0 : nat) (limit m M : R) (prof : list R) :
+  length tn = length lpn -> tn <> [] -> within m M tn ->
+  @npoint R RNum nl lp lpn tn wsize0 limit = Some prof -> within m M prof.
+Proof. intros Hl Hne Hw Hp. unfold npoint in Hp.
+  destruct (negb _); [discriminate|]. destruct (negb _); [discriminate|]. injection Hp as <-.
+  apply smooth_profile_bounded; assumption. Qed.
 
 (* inverted pressure nodes or an excessive slope are rejected as an invalid model *)
 Theorem npoint_rejects_inverted nl lp lpn tn wsize0 limit :
